@@ -206,6 +206,9 @@ class ExprMixin(object):
                     return o.attrs[name]
                 if name in o.cls.methods:
                     f = o.cls.methods[name]
+                    if getattr(f, "is_property", False):
+                        # a read of a property runs its getter
+                        return self.inline(st, f, None, [base], {}, node, module)
                     if f.is_staticmethod:
                         return FuncVal(f, None)
                     if f.is_classmethod:
